@@ -20,9 +20,9 @@ static R const EXACT_MAX = R(std::ldexp(1.0, MANT));
 // from 1 resp. infinity/zero in a_real; in the float build the window in which that is representable is asserted instead
 static LD const WIN_LO = sizeof(R) == 4 ? 1e-6L : 1e-12L, WIN_HI = sizeof(R) == 4 ? 1e5L : 1e12L;
 
-enum { L_TF, L_TF_ORDER2, L_TF_DEN_GT_NUM, L_TF_NUM_GT_DEN, L_TF_ORDER0, L_TF_ZERO_MID, L_TF_LINEAR, L_TF_DELAY, L_LPF, L_HPF, L_GEN, L_GEN_EXTREME_OPERAND, L_GEN_SATURATING, L_DYADIC, L_TF_STOPPED_MAGNITUDE, L_WIDE, L_TF_RECONFIGURED };
+enum { L_TF, L_TF_ORDER2, L_TF_DEN_GT_NUM, L_TF_NUM_GT_DEN, L_TF_ORDER0, L_TF_ZERO_MID, L_TF_LINEAR, L_TF_DELAY, L_LPF, L_HPF, L_GEN, L_GEN_EXTREME_OPERAND, L_GEN_SATURATING, L_DYADIC, L_TF_STOPPED_MAGNITUDE, L_WIDE, L_TF_RECONFIGURED, L_TF_SUBNORMAL_SCALE };
 static char const *const labels[] = {"tf", "tf_num_ge_2_and_den_ge_2", "tf_den_gt_num", "tf_num_gt_den", "tf_order_0_side", "tf_zero_mid_history", "tf_linearity", "tf_time_invariance",
-                                     "lpf", "hpf", "coefficient_generators", "generator_operand_beyond_1e+-150", "generator_product_outside_1e+-12", "dyadic_alpha_exact_class", "tf_history_cut_at_2^52", "inputs_over_whole_exponent_range", "tf_numerator_or_denominator_replaced_mid_history", nullptr};
+                                     "lpf", "hpf", "coefficient_generators", "generator_operand_beyond_1e+-150", "generator_product_outside_1e+-12", "dyadic_alpha_exact_class", "tf_history_cut_at_2^52", "inputs_over_whole_exponent_range", "tf_numerator_or_denominator_replaced_mid_history", "tf_inputs_scaled_into_the_subnormal_range", nullptr};
 static char const *const metrics[] = {"max_lpf_range_excess_ulps", "max_gen_error_ulps", nullptr};
 static uint8_t const dict[] = {2, 3, 8, 24};
 static vp_info const info = {"C16", "filters", "", labels, metrics, 160, dict, sizeof(dict)};
@@ -253,6 +253,38 @@ static void case_tf(Tape &t, Ctx &cx)
             R got = a_tf_iter(&g.ctx, R(x2[k])), gotm = gm.ctx(R(x2[k]));
             if (!(got == R(want))) { cx.fail("tf:set_num_den", "step %u (new %s of %u coefficients installed at step %u): a_tf_iter returned %.17g, the difference equation gives %.17g", k, which_den ? "denominator" : "numerator", nk, at, got, R(want)); }
             VP_CHECK(cx, memcmp(&got, &gotm, sizeof(R)) == 0, "tf:member_differs", "step %u after member set_%s: member path returns %.17g, C path %.17g", k, which_den ? "den" : "num", gotm, got);
+        }
+    }
+    // (5) homogeneity across the exponent range: the inputs times 2^s give the integer response times 2^s, exactly - all products
+    //     and sums are integer multiples of 2^s below 2^(MANT+s), representable down to the smallest subnormal and up to the
+    //     largest binade; s from the whole range, preferably at its ends. The stored output history is compared as well.
+    {
+        int const smin = std::numeric_limits<R>::min_exponent - std::numeric_limits<R>::digits; // 2^smin = smallest subnormal
+        int const smax = std::numeric_limits<R>::max_exponent - 2 - MANT;
+        uint16_t sb = t.u16();
+        int s2;
+        switch (sb % 4)
+        {
+        case 0: s2 = smin + int(sb / 4) % 80; break;
+        case 1: s2 = smax - int(sb / 4) % 80; break;
+        case 2: s2 = smin + int(sb / 4) % (smax - smin + 1); break;
+        default: s2 = int(sb / 4) % 81 - 40; break;
+        }
+        TF fs(b, a);
+        Ref rs;
+        rs.b = b; rs.a = a;
+        rs.in.assign(nn, 0); rs.out.assign(dn, 0);
+        bool ok5 = true;
+        cx.hash.add(uint64_t(s2 + 100000));
+        if (s2 < std::numeric_limits<R>::min_exponent - 1 + 8) { cx.label(L_TF_SUBNORMAL_SCALE); }
+        for (unsigned k = 0; k < len; ++k)
+        {
+            i128 want = rs.step(x1[k], ok5);
+            if (!ok5) { break; }
+            R xs = std::ldexp(R(x1[k]), s2), ws = std::ldexp(R(want), s2);
+            R got = a_tf_iter(&fs.ctx, xs);
+            if (!(got == ws)) { cx.fail("tf:not_homogeneous", "step %u: inputs scaled by 2^%d: a_tf_iter returned %.17g, 2^%d times the integer response is %.17g (num_n=%u den_n=%u)", k, s2, double(got), s2, double(ws), nn, dn); }
+            if (dn) { VP_CHECK(cx, fs.ctx.output[0] == got, "tf:stored_output_differs", "step %u (scale 2^%d): the output history holds %.17g, the value returned was %.17g", k, s2, double(fs.ctx.output[0]), double(got)); }
         }
     }
 }
